@@ -2,6 +2,7 @@ package codecaudio
 
 import (
 	"fmt"
+	"math/rand/v2"
 	"reflect"
 
 	"github.com/pion/rtp"
@@ -158,6 +159,115 @@ func sweeps(c *corr.Ctx) {
 	}
 	for n := 1; n <= 64; n++ {
 		fsimple.groupCase(c, cu.EncParams{PT: 100, SSRC: 5, Seq0: uint16(65500 + n), Max: 64}, []cu.Frame{{randBytes(c.Rng, n)}, {randBytes(c.Rng, 65-n)}}, fmt.Sprintf("simpleaudio-sweep-%d", n))
+	}
+}
+
+// longRuns: ONE Encode call that yields more than 256 packets (thorough tier: also more than
+// 65536), at the smallest workable payload limits, followed by one or two further calls through
+// the same encoder / decoder pair: counters and fields narrower than the 16-bit sequence number
+// (AC-3 NF = uint8(packetCount), 16-bit offsets / lengths, unit counts per packet above 255) must
+// not leak into the numbering, the timestamps or the round trip.  Found necessary by a seeded change
+// that advanced the sequence number by an 8-bit fragment count.
+func longRuns(c *corr.Ctx) {
+	rg := c.Rng
+	fm4, fmp1, fac3, flpcm, fsimple := families[0], families[1], families[2], families[3], families[4]
+	bigA := ac3Table.shapes[len(ac3Table.shapes)-1] // 3840 bytes
+	big1 := mp1Table.shapes[len(mp1Table.shapes)-1] // 1729 bytes
+	seq0 := func() uint16 {
+		if rg.IntN(2) == 0 {
+			return uint16(65536 - 1 - rg.IntN(300)) // wrap inside the long call
+		}
+		return uint16(rg.IntN(65536))
+	}
+	tail := func(g func(r *rand.Rand) cu.Frame) []cu.Frame {
+		fs := []cu.Frame{g(rg)}
+		if rg.IntN(2) == 0 {
+			fs = append(fs, g(rg))
+		}
+		return fs
+	}
+	both := func(fam *family, p cu.EncParams, first cu.Frame, name string) {
+		a, err := fam.mk(p)
+		if err != nil {
+			return
+		}
+		frames := append([]cu.Frame{first}, tail(a.GenFrame)...)
+		fam.groupCase(c, p, frames, name)
+		if rg.IntN(3) == 0 { // the generic driver's clauses on the same shape
+			cu.RoundTrip(c, fam.spec, p, func(*cu.Instance) []cu.Frame { return frames }, name+"-generic")
+		}
+	}
+	for i := 0; i < c.N(2, 8); i++ {
+		// AC-3: one 3840-byte frame at limit 9..18 = 275..768 fragments (NF wraps); sometimes two such frames
+		max := 9 + rg.IntN(10)
+		f := cu.Frame{bigA.frame(rg)}
+		if i%2 == 1 {
+			f = append(f, ac3Table.near(rg, 3000+rg.IntN(800)).frame(rg))
+		}
+		both(fac3, cu.EncParams{PT: uint8(96 + rg.IntN(30)), SSRC: rg.Uint32(), Seq0: seq0(), Max: max}, f, fmt.Sprintf("ac3-longrun-%d", i))
+		// MPEG-1 audio: 1729-byte frame at limit 9..10 = 289..346 fragments, offsets cross 255 and 1023
+		both(fmp1, cu.EncParams{PT: 14, SSRC: rg.Uint32(), Seq0: seq0(), Max: 9 + rg.IntN(2)}, cu.Frame{big1.frame(rg)}, fmt.Sprintf("mpeg1audio-longrun-%d", i))
+		// MPEG-4 audio: one AU of 300..5120 bytes at the smallest limit of its configuration
+		ssrc := []uint32{0, 4, 5}[rg.IntN(3)]
+		sl, il, _ := m4Params(ssrc)
+		lim := 3 + ceil8(sl+il) + rg.IntN(2)
+		n := (257 + rg.IntN(400)) * (lim - 2 - ceil8(sl+il))
+		both(fm4, cu.EncParams{PT: 96, SSRC: ssrc, Seq0: seq0(), Max: lim}, cu.Frame{m4ValidAU(rg, clamp(n, 300, 5120))}, fmt.Sprintf("mpeg4audio-longrun-%d", i))
+		// LPCM: one sample per packet, 257..900 packets
+		lssrc := rg.Uint32()
+		bd, cc := lpcmParams(lssrc)
+		ss := bd * cc / 8
+		both(flpcm, cu.EncParams{PT: 97, SSRC: lssrc, Seq0: seq0(), Max: ss + rg.IntN(ss)}, cu.Frame{randBytes(rg, (257+rg.IntN(640))*ss)}, fmt.Sprintf("lpcm-longrun-%d", i))
+	}
+	// more than 255 units in ONE packet: AU count / NF above 8 bits
+	{
+		var f cu.Frame
+		for k := 0; k < 256+rg.IntN(60); k++ {
+			f = append(f, m4ValidAU(rg, 1+rg.IntN(2)))
+		}
+		both(fm4, cu.EncParams{PT: 96, SSRC: 8, Seq0: seq0(), Max: 1450}, f, "mpeg4audio-longrun-manyaus")
+		var g cu.Frame
+		for k := 0; k < 257+rg.IntN(10); k++ {
+			g = append(g, ac3Table.shapes[0].frame(rg))
+		}
+		both(fac3, cu.EncParams{PT: 96, SSRC: rg.Uint32(), Seq0: seq0(), Max: 2 + 128*len(g) + rg.IntN(3)}, g, "ac3-longrun-manyframes")
+		var h cu.Frame
+		for k := 0; k < 257+rg.IntN(10); k++ {
+			h = append(h, mp1Table.shapes[0].frame(rg))
+		}
+		both(fmp1, cu.EncParams{PT: 14, SSRC: rg.Uint32(), Seq0: seq0(), Max: 4 + 48*len(h) + rg.IntN(3)}, h, "mpeg1audio-longrun-manyframes")
+	}
+	// simple audio: more than 256 Encode calls through one encoder
+	{
+		var fs []cu.Frame
+		for k := 0; k < 300; k++ {
+			fs = append(fs, cu.Frame{randBytes(rg, 1+rg.IntN(6))})
+		}
+		fsimple.groupCase(c, cu.EncParams{PT: 111, SSRC: rg.Uint32(), Seq0: seq0(), Max: 1450}, fs, "simpleaudio-longrun-calls")
+	}
+	if !c.Quick() {
+		// more than 65536 packets in ONE Encode call (the 16-bit sequence number wraps inside the call)
+		var g cu.Frame
+		for k := 0; k < 86; k++ { // 86 × 768 fragments
+			g = append(g, bigA.frame(rg))
+		}
+		both(fac3, cu.EncParams{PT: 96, SSRC: rg.Uint32(), Seq0: seq0(), Max: 9}, g, "ac3-longrun-65537")
+		var h cu.Frame
+		for k := 0; k < 190; k++ { // 190 × 346 fragments
+			h = append(h, big1.frame(rg))
+		}
+		both(fmp1, cu.EncParams{PT: 14, SSRC: rg.Uint32(), Seq0: seq0(), Max: 9}, h, "mpeg1audio-longrun-65537")
+		var m cu.Frame
+		for k := 0; k < 13; k++ { // 13 × 5120 one-byte fragments (13/3/3 at limit 5)
+			m = append(m, m4ValidAU(rg, 5120))
+		}
+		both(fm4, cu.EncParams{PT: 96, SSRC: 8, Seq0: seq0(), Max: 5}, m, "mpeg4audio-longrun-65537")
+		both(flpcm, cu.EncParams{PT: 97, SSRC: 0, Seq0: seq0(), Max: 1}, cu.Frame{randBytes(rg, 65537+rg.IntN(200))}, "lpcm-longrun-65537") // SSRC 0 → 8 bit mono
+		var fs []cu.Frame
+		for k := 0; k < 65537+rg.IntN(50); k++ {
+			fs = append(fs, cu.Frame{randBytes(rg, 1+rg.IntN(3))})
+		}
+		fsimple.groupCase(c, cu.EncParams{PT: 111, SSRC: rg.Uint32(), Seq0: seq0(), Max: 1450}, fs, "simpleaudio-longrun-65537-calls")
 	}
 }
 
